@@ -8,7 +8,7 @@ ID = "C04"
 LEVEL = "proof"
 DESIGN_REF = "DESIGN.md §9 C04, §12.C04"
 COQ_TARGETS = ["Properties/C04", "Pins/C04"]
-THEOREMS = [("PdfV.Properties.C04", n) for n in ["C04_ser_spells", "C04_roundtrip", "C04_roundtrip_eof", "C04_integer", "C04_decimal", "C04_name", "C04_string_literal", "C04_string_hex", "C04_indirect_body", "C04_stream", "C04_ser_no_panic", "C04_nonvacuous"]]
+THEOREMS = [("PdfV.Properties.C04", n) for n in ["C04_ser_spells", "C04_roundtrip", "C04_roundtrip_eof", "C04_integer", "C04_decimal", "C04_name", "C04_string_literal", "C04_string_hex", "C04_numbers_normal", "C04_roundtrip_holdable", "C04_indirect_body", "C04_stream", "C04_ser_no_panic", "C04_nonvacuous"]]
 ANCHORS = ["primitive.rs", "lexer/", "parser/", "file.rs:write_revision"]
 MODES = ["serialize", "ser_parse", "save_value"]
 TRUSTED_BASE = ["coqc 8.16.1 kernel", "gen/extract_syn.py", "Extraction + ExtrOcamlBasic + driver", "pdfh harness",
